@@ -24,7 +24,7 @@ SPEC = {
     "assumptions": ["vlib/tealgrammar.py literal decoders", "reference AVM semantics of intcblock/bytecblock/intc/bytec/pushint/pushbytes"],
     "min_evaluations": {"quick": 3000, "thorough": 30000},
     "must_reach": ["sites_agree", "exec_agree", "with_intcblock", "with_bytecblock", "over_255_constants", "with_template"],
-    "shard_timeout": {"quick": 900, "thorough": 7200},
+    "shard_timeout": {"quick": 2400, "thorough": 14400},
 }
 
 
